@@ -689,6 +689,13 @@ func (w *Walker) atomOf(st *wstate, fr *frame, v ssa.Value) (Atom, bool) {
 				r = GE
 			}
 			if r != 0 {
+				// constant on the left: swap operands (0 <= c  ≡  c >= 0)
+				if _, lc := x.X.(*ssa.Const); lc {
+					if _, rc := x.Y.(*ssa.Const); !rc && !isNilConst(x.X) {
+						x = &ssa.BinOp{Op: x.Op, X: x.Y, Y: x.X}
+						r = r.Flip()
+					}
+				}
 				if isNilConst(x.Y) || isNilConst(x.X) {
 					o := x.X
 					if isNilConst(x.X) {
